@@ -169,28 +169,8 @@ from the list is not discardable (not glue, penalty, math or an explicit kern). 
 every break sequence (valid or not) and every parameter setting. -/
 theorem no_leading_discardable (p : Params) (l : List Item) (bs : List Nat)
     (first : Line) (others : List Line) (h : postLineBreak p l bs = .ok (first :: others)) :
-    ∀ ln ∈ others, startsClean ln.post ln.body = true := by
-  unfold postLineBreak at h
-  cases bs with
-  | nil => simp [go] at h
-  | cons b rest =>
-    simp only [go] at h
-    split at h
-    · simp at h
-    · rename_i ln0 start' pend' hstep
-      split at h
-      · simp at h
-      · rename_i ls hgo
-        simp only [Except.ok.injEq, List.cons.injEq] at h
-        obtain ⟨_, rfl⟩ := h
-        refine go_clean p l _ rest 1 start' pend' ls hgo ?_
-        intro nb hnb
-        cases rest with
-        | nil => simp at hnb
-        | cons nb' r =>
-          simp only [List.head?_cons, Option.some.injEq] at hnb
-          subst hnb
-          exact step_clean hstep
+    ∀ ln ∈ others, startsClean ln.post ln.body = true :=
+  clean_top p l bs first others h
 
 /-- What `startsClean` says, spelled out. -/
 theorem startsClean_iff (post body : List Item) :
@@ -198,6 +178,18 @@ theorem startsClean_iff (post body : List Item) :
       post ≠ [] ∨ body = [] ∨ ∃ it t, body = it :: t ∧ it.nonDiscardable = true := by
   unfold startsClean
   cases post <;> cases body <;> simp
+
+/-! ## The executable verdict used on the real output -/
+
+/-- **The checker is not stricter than the theorems.** `specVerdict` — the executable
+conjunction of conservation, line count, geometry, §890 and "no leading discardable" that the
+driver evaluates on the REAL line boxes — accepts the model's own lines for every valid break
+sequence. (So an `impl-vs-spec` report on lines that equal the model's is impossible, and a
+`model-vs-spec` report is impossible while this theorem holds.) -/
+theorem spec_accepts_model (p : Params) (l : List Item) (bs : List Nat) (lines : List Line)
+    (hv : ValidBreaks l bs) (h : postLineBreak p l bs = .ok lines) :
+    specVerdict p l bs (lines.map fun ln => (ln.flat, ln.width, ln.indent, ln.pen)) = [] :=
+  specVerdict_model p l bs lines hv h
 
 /-! ## Space factor and inter-word glue (TeX.2021.1034, §1041–§1044) -/
 
